@@ -68,6 +68,9 @@ def rule_text(idx, it, sets, lexer_name, redundant=None):
         return lhs + ','
     if kind == 'simple':
         return '%s = lv::Tok(%d),' % (lhs, idx)
+    if kind in ('autoinf', 'autofal'):
+        # the SAME right-hand side text under `=>` and `=?` (the value is constructed generically: a token under `=>`, an error under `=?`)
+        return '%s %s |lexer| lexer.return_(lv::auto()),' % (lhs, '=>' if kind == 'autoinf' else '=?')
     op = '=>' if kind == 'infallible' else '=?'
     return '%s %s %s,' % (lhs, op, action_code(idx, kind, sets).replace('{L}', lexer_name))
 
@@ -280,6 +283,84 @@ def split_dump(lines):
     return {'ast': lines[i + 1:j], 'body': body, 'code': code, 'complete': 'END' in body}
 
 
+def _rewrite_acc_values(line, f):
+    """apply f to every accept VALUE of a dump line: `acc n (v ctx)*` and transitions ending in `a n (v ctx)*`"""
+    w = line.split()
+    if not w:
+        return line
+    if w[0] == 'acc':
+        i = 1
+    elif w[0] in ('ch', 'rg', 'any', 'eoi') and 'a' in w[1:]:
+        i = w.index('a', 1) + 1
+    else:
+        return line
+    try:
+        n = int(w[i])
+        for k in range(n):
+            w[i + 1 + 2 * k] = str(f(int(w[i + 1 + 2 * k])))
+    except (ValueError, IndexError):
+        return line
+    return ' '.join(w)
+
+
+def canon_actions(def_ls, dd):
+    """The accept values of the macro's automata are indices into its semantic-action table. The model numbers the rules in source order, one
+    entry per rule; that is what the pinned macro does, but it is not something any property demands: rules WITHOUT a right-hand side have
+    identical (empty) actions and may share one table entry. When the dumped AST shows such sharing (several rules, all of kind `none`, with
+    one index) or a different numbering, rename indices on both sides to a canonical one (the source-order number of the first rule that uses
+    the entry) so that the comparison is about behaviour and not about numbering. Sharing between rules that HAVE a right-hand side, or an
+    entry whose kind differs from the rule's kind, is not renamed away: it is left as it is and surfaces as a disagreement.
+    -> (definition lines for the model, dump dict)"""
+    if not dd or not dd.get('ast'):
+        return def_ls, dd
+    dumped = [l.split() for l in dd['ast'] if ' rule ' in ' ' + l]
+    mine = [l.split() for l in def_ls if ' rule ' in ' ' + l]
+    if len(dumped) != len(mine):
+        return def_ls, dd
+    try:
+        d_idx = [int(w[w.index('rule') + 2]) for w in dumped]
+        d_kind = [w[w.index('rule') + 1] for w in dumped]
+        m_kind = [w[w.index('rule') + 1] for w in mine]
+        m_kind = [{'autoinf': 'infallible', 'autofal': 'fallible'}.get(k, k) for k in m_kind]
+    except (ValueError, IndexError):
+        return def_ls, dd
+    if d_idx == list(range(len(d_idx))):
+        return def_ls, dd                       # the numbering of the model: nothing to do
+    users = {}
+    for k, v in enumerate(d_idx):
+        users.setdefault(v, []).append(k)
+    for v, ks in users.items():
+        if any(d_kind[k] != m_kind[k] for k in ks):
+            return def_ls, dd                   # an entry of the wrong kind: real disagreement
+        if len(ks) > 1 and any(m_kind[k] != 'none' for k in ks):
+            return def_ls, dd                   # rules with right-hand sides share an entry: real disagreement
+    canon_of_dumped = {v: min(ks) for v, ks in users.items()}
+    canon_of_rule = [canon_of_dumped[d_idx[k]] for k in range(len(d_idx))]
+
+    def renum(lines, by_rule):
+        out, k = [], 0
+        for l in lines:
+            w = l.split()
+            if 'rule' in w[:2]:
+                i = w.index('rule') + 2
+                w[i] = str(canon_of_rule[k] if by_rule else canon_of_dumped.get(int(w[i]), int(w[i])))
+                k += 1
+                out.append(' '.join(w))
+            else:
+                out.append(l)
+        return out
+    dd2 = dict(dd)
+    dd2['ast'] = renum(dd['ast'], False)
+    body, in_ctx = [], False
+    for l in dd['body']:
+        if l.startswith('DFA '):
+            in_ctx = l.split()[1].startswith('ctx')      # right-context automata accept with a unit value, not with an action index
+        body.append(l if in_ctx else _rewrite_acc_values(l, lambda v: canon_of_dumped.get(v, v)))
+    dd2['body'] = body
+    dd2['actions_renamed'] = True
+    return renum(def_ls, True), dd2
+
+
 def parse_dump_dfa(body, tag):
     """simplified parse for input generation: returns list of states {acc, ch, rg, any, eoi, bt, initial}"""
     states = []
@@ -463,10 +544,13 @@ def parse_traces(text):
     return out
 
 
-def run_crate_cases(ws, crate, cases, workdir, timeout=120, target_dir=None):
+def run_crate_cases(ws, crate, cases, workdir, timeout=120, target_dir=None, mode=None):
+    """mode None: the cases in order on the main thread of one process; 'fresh_rev': in REVERSE order, each on a freshly spawned thread (thread-local
+    state starts cold, process-wide state has seen other cases) — the traces of a case must not depend on which"""
     tdir = target_dir or os.path.join(ws, 'target')
     exe = os.path.join(tdir, 'debug', crate)
-    cf = os.path.join(workdir, 'cases_%s.txt' % crate)
+    cf = os.path.join(workdir, 'cases_%s%s.txt' % (crate, '_' + mode if mode else ''))
+    env = dict(os.environ, LV_MODE=mode) if mode else None
     pending = list(cases)
     traces = {}
     hangs = []
@@ -475,7 +559,7 @@ def run_crate_cases(ws, crate, cases, workdir, timeout=120, target_dir=None):
             break
         write_cases(cf, pending)
         # a looping lexer is an outcome, not a reason to wait: the whole crate normally runs in about a second
-        rc, out, secs = run([exe, cf], timeout=min(timeout, 40 if attempt == 0 else 15), max_gb=6)
+        rc, out, secs = run([exe, cf], env=env, timeout=min(timeout, 40 if attempt == 0 else 15), max_gb=6)
         got = parse_traces(out)
         for k, v in got.items():
             if v['complete']:
